@@ -68,7 +68,7 @@ deriving Repr, Inhabited
 inductive Decl where
   | param (desc : Option PVal) (dt : Option DTree) (props : PropMap) (inherit : Bool)
   | cmd (desc : Option PVal) (arg : Option DTree) (props : PropMap)
-  | value (v : PVal) (callable : Bool)
+  | value (v : PVal) (callable : Bool) (optional : Option PVal)
   | none
 deriving Repr, Inhabited
 
@@ -81,7 +81,7 @@ deriving Repr, Inhabited
 
 inductive EntryV where
   | acc (a : AccV)
-  | bare (v : PVal) (callable : Bool)
+  | bare (v : PVal) (callable : Bool) (optional : Option PVal)
   | none
 deriving Repr, Inhabited
 
@@ -136,7 +136,7 @@ def entryOf (T : Tables) (cls name : Name) : Decl → EntryV
       | some t => DtSlot.set (.decl cls name) t
       | none => DtSlot.cleared
     .acc ⟨true, fixExport T name kwds, slot, kwds, slot, none⟩
-  | .value v c => .bare v c
+  | .value v c o => .bare v c o
   | .none => .none
 
 /-- `updateProperties` (params.py:261-269, 479-481) -/
@@ -184,11 +184,21 @@ def mergedAcc (T : Tables) (cls name : Name) (isCmd : Bool) (own : PropMap) (own
   let st := if isCmd then cmdState T name m else paramState T cls name m
   ⟨isCmd, st.1, st.2, own, ownDt, some m⟩
 
+/-- `Command.__call__(func)` (params.py:437-455): a struct argument gets its `optional` list from the
+defaults in the signature of `func` (`opt` is the exported form: `none` when every member is optional) -/
+def setOptional (opt : Option PVal) : DTree → DTree
+  | .node k p cs ms =>
+    if k == "struct" then
+      match opt with
+      | some o => .node k (PropMap.put p "optional" o) cs ms
+      | none => .node k (aerase p "optional") cs ms
+    else .node k p cs ms
+
 /-- `create_from_value` (params.py:271-281, 483-495) -/
-def createFromValue (T : Tables) (cls name : Name) (isCmd : Bool) (m : MProps) (v : PVal) : AccV :=
+def createFromValue (T : Tables) (cls name : Name) (isCmd : Bool) (m : MProps) (v : PVal) (opt : Option PVal) : AccV :=
   if isCmd then
     ⟨true, fixExport T name m.props,
-     match m.dt with | .set _ t => .set (.copy cls name) t | d => d, [], .unset, none⟩
+     match m.dt with | .set _ t => .set (.copy cls name) (setOptional opt t) | d => d, [], .unset, none⟩
   else
     let st := paramState T cls name ⟨m.props.put "value" v, m.dt⟩
     ⟨false, st.1, st.2, [("value", v)], .unset, none⟩
@@ -205,8 +215,8 @@ def buildOne (T : Tables) (self : Name) (w : Walk) (b : Built) (ns : Name × Slo
   let m := (aget? w.merged name).getD ⟨[], .unset⟩
   match aget? w.overrides name with
   | some .none => b
-  | some (.bare v _) =>
-    let a := createFromValue T self name slot.val.isCmd m v
+  | some (.bare v _ opt) =>
+    let a := createFromValue T self name slot.val.isCmd m v opt
     { dict := aput b.dict name (.acc a), accs := b.accs ++ [(name, ⟨self, a⟩)] }
   | _ =>
     if slot.owner != self then
